@@ -153,6 +153,8 @@ def truthy(v):
         return True
     if type(v).__name__ == 'AbstractFn':
         return True
+    if type(v).__name__ == 'TruthOnly':
+        return v.t
     return bool(v)
 
 
